@@ -291,16 +291,25 @@ deriving Repr
 def fieldItem (x : IWV) : Encode.Item :=
   .field (x.v % (2 ^ x.n.toNat)).toNat x.n.toNat
 
+def argItem (env : Env) : PArg → Except PyErr Encode.Item
+  | .timings e => (eval env e).map fieldItem
+  | .lit ds => .ok (Encode.Item.lit ds)
+
+/-- one keyword argument: an `IntegerWrapper` is rendered with its own width, a plain int is wrapped
+    with the declared width of the `_parameters` entry -/
+def kwItem (env : Env) (pk : (String × Nat × Nat) × (String × Bool × WExp)) : Except PyErr Encode.Item := do
+  let x ← eval env pk.2.2.2
+  if pk.2.2.1 then pure (fieldItem x)
+  else pure (fieldItem (mkIW x.v (some ((pk.1.2.2 : Int) + 1 - pk.1.2.1))))
+
+/-- the keyword arguments `_build_packet` picks up, in `_parameters` order -/
+def kwPairs (t : Tables) (p : Packet) : List ((String × Nat × Nat) × (String × Bool × WExp)) :=
+  t.params.filterMap (fun (prm : String × Nat × Nat) =>
+    (p.kwargs.find? (fun k => k.1 == prm.1)).map (fun k => (prm, k)))
+
 def packetItems (t : Tables) (env : Env) (p : Packet) : Except PyErr (List Encode.Item) := do
-  let pos ← p.args.mapM (fun a => match a with
-    | .timings e => (eval env e).map fieldItem
-    | .lit ds => .ok (Encode.Item.lit ds))
-  let kw ← (t.params.filterMap (fun (prm : String × Nat × Nat) =>
-      (p.kwargs.find? (fun k => k.1 == prm.1)).map (fun k => (prm, k)))).mapM
-    (fun (pk : (String × Nat × Nat) × (String × Bool × WExp)) => do
-      let x ← eval env pk.2.2.2
-      if pk.2.2.1 then pure (fieldItem x)
-      else pure (fieldItem (mkIW x.v (some ((pk.1.2.2 : Int) + 1 - pk.1.2.1)))))
+  let pos ← p.args.mapM (argItem env)
+  let kw ← (kwPairs t p).mapM (kwItem env)
   pure (pos ++ kw)
 
 def buildTraced (t : Tables) (env : Env) (p : Packet) : Except PyErr (List Int) := do
@@ -358,5 +367,10 @@ def decodeW (t : Tables) (w : Wrapper) (inst : Inst) (data : List Int) : DecodeO
       | some l => { result := .ok l, inst := inst', effects := eff', isLast := true }
       | none => { result := .error .typeError, inst := inst', effects := eff' }
     | .ok (.code _) => { result := .ok c', inst := inst', effects := eff', isLast := b.isLast }
+
+/-- `decode()` of a protocol: the traced wrapper around the base decoder when the class overrides `decode`,
+    the base decoder itself otherwise -/
+def decodeP (t : Tables) (w : Wrapper) (inst : Inst) (data : List Int) : DecodeOut :=
+  if t.decodeOverridden then decodeW t w inst data else baseDecode t inst data
 
 end IRModel.Wrap
